@@ -275,6 +275,7 @@ type l1Family struct {
 	Roots    []int
 	Retry    bool // additionally every variant with exactly one retrying transaction
 	Collide  bool // keep only colliding programs
+	NoEmpty  bool // drop the empty body
 	// LockFilter restricts the lock lists (nil = all)
 	LockFilter func(l []l1Req) bool
 }
@@ -287,6 +288,9 @@ func l1Enumerate(f l1Family) []l1Prog {
 		}
 		t := l1Tx{Locks: ll}
 		for _, b := range l1Bodies(t.access(), f.MaxSteps) {
+			if f.NoEmpty && len(b) == 0 {
+				continue
+			}
 			txs = append(txs, l1Tx{Locks: ll, Steps: b})
 		}
 	}
@@ -361,11 +365,14 @@ var l1IDs = [3][]byte{
 type l1Env struct {
 	dbase db.Database
 	hash  []byte
+	wss   state.WorldSnapshot
 }
 
-// newL1Env flushes the initial state (three accounts with distinct balances and
-// one storage value each) into a MapDB; every execution starts from a fresh
-// WorldState opened on that root.
+// newL1Env builds the initial state (three accounts with distinct balances and
+// one storage value each), flushes it into a MapDB and keeps the snapshot; every
+// execution starts from a fresh WorldState made from that snapshot with
+// WorldStateFromSnapshot, exactly like transition.newWorldContext does with
+// its parent's snapshot.
 func newL1Env() *l1Env {
 	dbase := db.NewMapDB()
 	ws := state.NewWorldState(dbase, nil, nil, nil, nil)
@@ -380,11 +387,15 @@ func newL1Env() *l1Env {
 	if err := ss.Flush(); err != nil {
 		panic(err)
 	}
-	return &l1Env{dbase: dbase, hash: ss.StateHash()}
+	return &l1Env{dbase: dbase, hash: ss.StateHash(), wss: ss}
 }
 
 func (e *l1Env) newWorld() state.WorldState {
-	return state.NewWorldState(e.dbase, e.hash, nil, nil, nil)
+	ws, err := state.WorldStateFromSnapshot(e.wss)
+	if err != nil {
+		panic(err)
+	}
+	return ws
 }
 
 // l1Obs is what one run of a program exposes.
@@ -395,6 +406,7 @@ type l1Obs struct {
 	Balances [3]string
 	Order    []byte // global order of executed steps (tx index per step), schedule diversity
 	Err      string
+	Post     [][3]string // sequential oracle only: "balance/value" of a,b,c after each transaction
 }
 
 func (o *l1Obs) key() string {
@@ -434,9 +446,6 @@ func l1RunSteps(ws state.WorldState, ti int, t *l1Tx, order *[]byte) (reads []st
 				return reads, fmt.Sprintf("tx%d: second GetAccountState(%c)=nil", ti, 'a'+s.A)
 			}
 			if _, e := as2.SetValue([]byte("k0"), append(append([]byte(nil), v...), byte(ti+1))); e != nil {
-				return reads, fmt.Sprintf("tx%d: SetValue: %v", ti, e)
-			}
-			if _, e := as2.SetValue([]byte{'t', byte('0' + ti)}, []byte{byte(s.A + 1)}); e != nil {
 				return reads, fmt.Sprintf("tx%d: SetValue: %v", ti, e)
 			}
 		}
@@ -501,10 +510,93 @@ func l1Sequential(env *l1Env, p *l1Prog) *l1Obs {
 		if e != "" && o.Err == "" {
 			o.Err = e
 		}
+		var post [3]string
+		for a, id := range l1IDs {
+			as := ws.GetAccountState(id)
+			v, _ := as.GetValue([]byte("k0"))
+			post[a] = fmt.Sprintf("%s/%x", as.GetBalance().String(), v)
+		}
+		o.Post = append(o.Post, post)
 	}
 	l1Final(o, ws, nil)
 	return o
 }
+
+// effLock names the lock through which transaction t may touch account a.
+func (t l1Tx) effLock(a int) string {
+	acct, world := 0, 0
+	for _, r := range t.Locks {
+		lv := 1
+		if r.W {
+			lv = 2
+		}
+		if r.A == l1World {
+			if lv > world {
+				world = lv
+			}
+		} else if r.A == a && lv > acct {
+			acct = lv
+		}
+	}
+	names := []string{"", "R", "W"}
+	// applyLockRequests: a world write lock swallows everything; an account
+	// request not stronger than the world lock is dropped
+	if world == 2 || (world >= acct && world > 0) {
+		return "world-" + names[world]
+	}
+	if acct > 0 {
+		return "account-" + names[acct]
+	}
+	return "none"
+}
+
+// l1Diagnose turns a difference between the sequential oracle and a concurrent
+// observation into a narrow signature: which kind of wrong value a transaction
+// read, through which lock, and through which lock the transaction whose write
+// it wrongly saw / missed holds the account.
+func l1Diagnose(p *l1Prog, want, got *l1Obs) string {
+	if got.Err != want.Err {
+		return "error:" + p.lockPattern()
+	}
+	for i := range p.Txs {
+		if i >= len(got.Reads) || i >= len(want.Reads) {
+			break
+		}
+		w, g := want.Reads[i], got.Reads[i]
+		for k := 0; k < len(w) || k < len(g); k++ {
+			if k >= len(w) || k >= len(g) {
+				return fmt.Sprintf("reads-missing:tx%d:%s", i, p.lockPattern())
+			}
+			if w[k] == g[k] {
+				continue
+			}
+			a := int(w[k][0] - 'a')
+			val := g[k][2:]
+			kind, writer := "inconsistent-read", -1
+			for j := i; j < len(p.Txs); j++ { // a value only a later (or the same) transaction produces
+				if want.Post[j][a] == val && (j == 0 || want.Post[j-1][a] != val) {
+					kind, writer = "future-read", j
+					break
+				}
+			}
+			if writer < 0 {
+				for j := i - 1; j >= 0; j-- { // the last earlier writer of the account was missed
+					if (j == 0 && want.Post[j][a] != l1Initial(a)) || (j > 0 && want.Post[j][a] != want.Post[j-1][a]) {
+						kind, writer = "stale-read", j
+						break
+					}
+				}
+			}
+			if writer < 0 {
+				return fmt.Sprintf("%s:reader=%s:%s", kind, p.Txs[i].effLock(a), p.lockPattern())
+			}
+			return fmt.Sprintf("%s:reader=%s:writer=%s", kind, p.Txs[i].effLock(a), p.Txs[writer].effLock(a))
+		}
+	}
+	return "final-state-differs:" + p.lockPattern()
+}
+
+func l1Initial(a int) string { return fmt.Sprintf("%d/%x", 10*(a+1), []byte{byte(0x70 + a)}) }
 
 // l1Body is the managed body: thread 0 plays the dispatcher.
 func l1Body(env *l1Env, p *l1Prog, free bool) func(x *explore.Exec) {
